@@ -425,6 +425,10 @@ func execIsoBuild(t *core.Trace, prop string) *core.Result {
 					werr = &core.Violation{Clause: "C06.kind", Detail: fmt.Sprintf("%q: directory=%v in the image, %v in the workspace", ip, e.IsDir(), m.dir)}
 					return
 				}
+				if info, ierr := e.Info(); ierr == nil && info.Mode().IsDir() != e.IsDir() {
+					werr = &core.Violation{Clause: "C06.kind", Detail: fmt.Sprintf("%q: the entry says directory=%v, the mode of its Info() says %v", ip, e.IsDir(), info.Mode().IsDir())}
+					return
+				}
 				if e.IsDir() {
 					walk(ip, op)
 					if werr != nil {
